@@ -387,27 +387,23 @@ def toXmlStep (s : Step) : Except SaveErr XElem :=
   | some st => .ok (.mk "step" ([("description", .text s.description), ("start-time", .time st)] ++ endAttr s.endTime) none
                      (s.entries.map toXmlEntry))
 
-/-- `if result.status_details:` / `if link[1]:` — falsy strings are not written -/
-def truthyStr : Option String → Option String
-  | some s => if s.isEmpty then none else some s
-  | none => none
-
 def optAttr (k : String) : Option String → List (String × XVal)
   | none => []
   | some s => [(k, .text s)]
 
-/-- `_serialize_result`: attributes and step children added to an element -/
+/-- `_serialize_result`: attributes and step children added to an element
+    (mirrors the code WITH `fixes/D8b-xml-empty-attribute-strings.diff`: `status_details is not None`) -/
 def resultAttrs (r : Result) : Except SaveErr (List (String × XVal)) :=
   match r.startTime with
   | none => .error (.noneTime "result")
-  | some st => .ok (optAttr "status" (r.status.map statusName) ++ optAttr "status-details" (truthyStr r.statusDetails)
+  | some st => .ok (optAttr "status" (r.status.map statusName) ++ optAttr "status-details" r.statusDetails
                      ++ [("start-time", .time st)] ++ endAttr r.endTime)
 
 /-- `_serialize_node_metadata` -/
 def metaAttrs (m : Meta) : List (String × XVal) := [("name", .text m.name), ("description", .text m.description)]
 def toXmlTag (t : String) : XElem := leaf "tag" [] (some t)
 def toXmlProp (p : String × String) : XElem := leaf "property" [("name", .text p.1)] (some p.2)
-def toXmlLink (l : String × Option String) : XElem := leaf "link" (optAttr "name" (truthyStr l.2)) (some l.1)
+def toXmlLink (l : String × Option String) : XElem := leaf "link" (optAttr "name" l.2) (some l.1)
 def toXmlInfo (p : String × String) : XElem := leaf "info" [("name", .text p.1)] (some p.2)
 def metaChildren (m : Meta) : List XElem :=
   m.tags.map toXmlTag ++ m.properties.map toXmlProp ++ m.links.map toXmlLink
@@ -758,10 +754,11 @@ def charOk (c : Char) : Bool := isXmlChar c && !isSurrogateCarrier c
 def attrOk (s : String) : Bool := s.toList.all charOk
 /-- a text position keeps its value iff moreover it is non-empty and has no CR -/
 def textOk (s : String) : Bool := !s.isEmpty && s.toList.all (fun c => charOk c && c != '\r')
-/-- `status-details`, link name: written only when truthy -/
+/-- `status-details`, link name: optional attributes (written `if … is not None`, with
+    `fixes/D8b-xml-empty-attribute-strings.diff`; the unchanged tree tests truthiness and drops `""`) -/
 def optAttrOk : Option String → Bool
   | none => true
-  | some s => !s.isEmpty && attrOk s
+  | some s => attrOk s
 def optTextOk : Option String → Bool
   | none => true
   | some s => textOk s
@@ -794,7 +791,7 @@ end
 /-- The exact guard under which an XML save/load gives the report back:
     every start time is set (the serializer formats them unconditionally);
     no text-position string (title, info value, tag, property value, link url, log message, attachment
-    file name, url, check details) is empty or contains CR; `status_details` and link names are not `""`;
+    file name, url, check details) is empty or contains CR;
     every character anywhere is an XML 1.0 character and not a lone surrogate. -/
 def xmlSafe (r : Report) : Bool :=
   r.startTime.isSome && textOk r.title && r.info.all (fun p => attrOk p.1 && textOk p.2)
